@@ -20,6 +20,11 @@
 (*               held by the Runtime and by every module compiled from it  *)
 (*               (declare_constant clones every registered constant's Arc  *)
 (*               into the module)                                          *)
+(*   late g    = a second constant registered with Runtime::add AFTER the   *)
+(*               runtime was built (and possibly after compilations): held  *)
+(*               by the Runtime and by every module compiled after the add  *)
+(*               (whose script reads it); modules compiled before never see *)
+(*               it                                                         *)
 (*   fn <<g,f>> = the state captured by the f-th registered closure of     *)
 (*               generation g (f in Fns).  All registered closures are     *)
 (*               made by ONE factory function, so they have the same Rust  *)
@@ -58,11 +63,12 @@ UsesSeq(v)     == IF v = 1 THEN <<1, 2>> ELSE <<2, 3>>   \* the closures main() 
 Uses(v)        == {UsesSeq(v)[1], UsesSeq(v)[2]}
 Base(f)        == 2000 * f                    \* where the counter captured by closure f starts
 RcTag(g)       == 50 + g                      \* value of the registered constant of generation g
+LcTag(g)       == 100 * g                     \* value of the late registered constant of generation g
 NoRes          == [k |-> 0, rc |-> 0, na |-> 0, nb |-> 0]
 
 VARIABLES rt,     \* 0, or the generation of the Runtime object that is alive
-          gens,   \* per generation: [crc, cfree, frc, ffree, cnt]; the last three per closure
-          mods,   \* per compilation: [v, g, pobj, rc, nfree]
+          gens,   \* per generation: [crc, cfree, frc, ffree, cnt (these three per closure), late, lrc, lfree]
+          mods,   \* per compilation: [v, g, pobj, rc, nfree, late (compiled after the late constant was added)]
           hnd,    \* handle slot -> module (0 = slot empty)
           clo,    \* closure slot -> module (0 = slot empty)
           obs     \* what the last action returned to the host
@@ -80,6 +86,9 @@ HoldersM(m) == (IF mods[m].pobj THEN {<<"p", 0>>} ELSE {})
 Held(m)     == HoldersM(m) # {}
 HoldersC(g) == (IF rt = g THEN {<<"r", 0>>} ELSE {})
                \cup {<<"m", m>> : m \in {x \in Mods : mods[x].g = g /\ Held(x)}}
+HoldersL(g) == IF ~gens[g].late THEN {}
+               ELSE (IF rt = g THEN {<<"r", 0>>} ELSE {})
+                    \cup {<<"m", m>> : m \in {x \in Mods : mods[x].g = g /\ mods[x].late /\ Held(x)}}
 HoldersF(g, f) == (IF rt = g THEN {<<"r", 0>>} ELSE {})
                \cup {<<"m", m>> : m \in {x \in Mods : mods[x].g = g /\ f \in Uses(mods[x].v) /\ Held(x)}}
 
@@ -89,24 +98,28 @@ LiveK(v) == NConst(v) * Cardinality({m \in Mods : mods[m].v = v /\ mods[m].nfree
 Live == [k1  |-> LiveK(1),
          k2  |-> LiveK(2),
          rc  |-> Cardinality({g \in Gens : gens[g].cfree = 0}),
+         lc  |-> Cardinality({g \in Gens : gens[g].late /\ gens[g].lfree = 0}),
          cap |-> [f \in Fns |-> Cardinality({g \in Gens : gens[g].ffree[f] = 0})]]
 
 \* the order the harness reports them in
-LiveVec == <<Live.k1, Live.k2, Live.rc, Live.cap[1], Live.cap[2], Live.cap[3]>>
+LiveVec == <<Live.k1, Live.k2, Live.rc, Live.cap[1], Live.cap[2], Live.cap[3], Live.lc>>
 
 (* what main() of module m returns when called now *)
 Result(m) == LET v == mods[m].v  g == mods[m].g
-             IN [k |-> KSum(v), rc |-> RcTag(g),
+             IN [k |-> KSum(v), rc |-> RcTag(g) + (IF mods[m].late THEN LcTag(g) ELSE 0),
                  na |-> gens[g].cnt[UsesSeq(v)[1]], nb |-> gens[g].cnt[UsesSeq(v)[2]]]
 
 ResVec(o) == <<o.k, o.rc, o.na, o.nb>>
 
 (* ---- reference counting -------------------------------------------------- *)
-(* generation record r loses a holder of its constant and of the closures in FS *)
-DecGen(r, FS) ==
+(* generation record r loses a holder of its constant, of the closures in FS *)
+(* and (hl) of its late constant                                              *)
+DecGen(r, FS, hl) ==
     LET crc1 == r.crc - 1
+        lrc1 == IF hl THEN r.lrc - 1 ELSE r.lrc
         frc1 == [f \in Fns |-> IF f \in FS THEN r.frc[f] - 1 ELSE r.frc[f]]
     IN [r EXCEPT !.crc = crc1, !.cfree = IF crc1 = 0 THEN @ + 1 ELSE @,
+                 !.lrc = lrc1, !.lfree = IF hl /\ lrc1 = 0 THEN @ + 1 ELSE @,
                  !.frc = frc1,
                  !.ffree = [f \in Fns |-> IF f \in FS /\ frc1[f] = 0 THEN @[f] + 1 ELSE @[f]]]
 
@@ -115,7 +128,7 @@ DecModM(M, m) == [M EXCEPT ![m].rc = @ - 1,
                            ![m].nfree = IF M[m].rc = 1 THEN @ + 1 ELSE @]
 (* ... and with it the module's share in the resources of its generation *)
 DecModG(G, M, m) == IF M[m].rc = 1
-                    THEN [G EXCEPT ![M[m].g] = DecGen(@, Uses(M[m].v))]
+                    THEN [G EXCEPT ![M[m].g] = DecGen(@, Uses(M[m].v), M[m].late)]
                     ELSE G
 (* every closure the script of m calls runs once *)
 CallG(G, m) == [G EXCEPT ![mods[m].g].cnt = [f \in Fns |-> IF f \in Uses(mods[m].v) THEN @[f] + 1 ELSE @[f]]]
@@ -127,16 +140,25 @@ Init == /\ rt = 0 /\ gens = <<>> /\ mods = <<>> /\ obs = NoRes
 BuildRuntime ==
     /\ rt = 0 /\ Len(gens) < MaxGens
     /\ gens' = Append(gens, [crc |-> 1, cfree |-> 0, frc |-> [f \in Fns |-> 1],
-                              ffree |-> [f \in Fns |-> 0], cnt |-> [f \in Fns |-> Base(f)]])
+                              ffree |-> [f \in Fns |-> 0], cnt |-> [f \in Fns |-> Base(f)],
+                              late |-> FALSE, lrc |-> 0, lfree |-> 0])
     /\ rt' = Len(gens) + 1
     /\ UNCHANGED <<mods, hnd, clo>> /\ obs' = NoRes
 
 Compile(v) ==
     /\ rt # 0 /\ Len(mods) < MaxMods
-    /\ mods' = Append(mods, [v |-> v, g |-> rt, pobj |-> TRUE, rc |-> 1, nfree |-> 0])
+    /\ mods' = Append(mods, [v |-> v, g |-> rt, pobj |-> TRUE, rc |-> 1, nfree |-> 0, late |-> gens[rt].late])
     /\ gens' = [gens EXCEPT ![rt].crc = @ + 1,
+                            ![rt].lrc = IF gens[rt].late THEN @ + 1 ELSE @,
                             ![rt].frc = [f \in Fns |-> IF f \in Uses(v) THEN @[f] + 1 ELSE @[f]]]
     /\ UNCHANGED <<rt, hnd, clo>> /\ obs' = NoRes
+
+(* Runtime::add of one more constant on the live runtime, at any time: only *)
+(* compilations that follow see (and hold) it                                *)
+AddConst ==
+    /\ rt # 0 /\ ~gens[rt].late
+    /\ gens' = [gens EXCEPT ![rt].late = TRUE, ![rt].lrc = 1]
+    /\ UNCHANGED <<rt, mods, hnd, clo>> /\ obs' = NoRes
 
 GetHandle(m, h) ==
     /\ m \in Mods /\ mods[m].pobj /\ hnd[h] = 0
@@ -173,7 +195,7 @@ DropPkg(m) ==
 DropRuntime ==
     /\ rt # 0
     /\ rt' = 0
-    /\ gens' = [gens EXCEPT ![rt] = DecGen(@, Fns)]
+    /\ gens' = [gens EXCEPT ![rt] = DecGen(@, Fns, gens[rt].late)]
     /\ UNCHANGED <<mods, hnd, clo>> /\ obs' = NoRes
 
 (* the handle is moved to another thread, called there once and dropped there *)
@@ -207,7 +229,7 @@ DropClosure(c) ==
     /\ gens' = DecModG(gens, mods, clo[c])
     /\ UNCHANGED <<rt, hnd>> /\ obs' = NoRes
 
-Next == \/ BuildRuntime \/ DropRuntime
+Next == \/ BuildRuntime \/ DropRuntime \/ AddConst
         \/ \E v \in Versions : Compile(v)
         \/ \E m \in Mods : DropPkg(m) \/ \E h \in Handles : GetHandle(m, h)
         \/ \E a, b \in Handles : CloneHandle(a, b)
@@ -220,8 +242,9 @@ Spec == Init /\ [][Next]_vars
 (* ---- what the design must guarantee ---------------------------------------- *)
 TypeOK ==
     /\ rt \in 0..Len(gens)
-    /\ \A g \in Gens : gens[g] \in [crc : Nat, cfree : Nat, frc : [Fns -> Nat], ffree : [Fns -> Nat], cnt : [Fns -> Nat]]
-    /\ \A m \in Mods : mods[m] \in [v : Versions, g : Gens, pobj : BOOLEAN, rc : Nat, nfree : Nat]
+    /\ \A g \in Gens : gens[g] \in [crc : Nat, cfree : Nat, frc : [Fns -> Nat], ffree : [Fns -> Nat], cnt : [Fns -> Nat],
+                                     late : BOOLEAN, lrc : Nat, lfree : Nat]
+    /\ \A m \in Mods : mods[m] \in [v : Versions, g : Gens, pobj : BOOLEAN, rc : Nat, nfree : Nat, late : BOOLEAN]
     /\ hnd \in [Handles -> 0..Len(mods)]
     /\ clo \in [Closures -> 0..Len(mods)]
 
@@ -229,17 +252,21 @@ TypeOK ==
 RefCountsExact ==
     /\ \A m \in Mods : mods[m].rc = Cardinality(HoldersM(m))
     /\ \A g \in Gens : /\ gens[g].crc = Cardinality(HoldersC(g))
+                       /\ gens[g].lrc = Cardinality(HoldersL(g))
                        /\ \A f \in Fns : gens[g].frc[f] = Cardinality(HoldersF(g, f))
 
 (* released iff nobody holds it, exactly once, never while held *)
 FreedIffUnheld ==
     /\ \A m \in Mods : mods[m].nfree = IF Held(m) THEN 0 ELSE 1
     /\ \A g \in Gens : /\ gens[g].cfree = IF HoldersC(g) # {} THEN 0 ELSE 1
+                       /\ gens[g].lfree = IF gens[g].late /\ HoldersL(g) = {} THEN 1 ELSE 0
+                       /\ \A m \in Mods : (mods[m].g = g /\ mods[m].late) => gens[g].late
                        /\ \A f \in Fns : gens[g].ffree[f] = IF HoldersF(g, f) # {} THEN 0 ELSE 1
 
 (* everything a call touches is alive as long as the handle / closure exists *)
 Callable(m) == /\ mods[m].nfree = 0
                /\ gens[mods[m].g].cfree = 0
+               /\ (mods[m].late => gens[mods[m].g].lfree = 0)
                /\ \A f \in Uses(mods[m].v) : gens[mods[m].g].ffree[f] = 0
 CallValid == /\ \A h \in Handles : hnd[h] # 0 => Callable(hnd[h])
              /\ \A c \in Closures : clo[c] # 0 => Callable(clo[c])
@@ -247,7 +274,7 @@ CallValid == /\ \A h \in Handles : hnd[h] # 0 => Callable(hnd[h])
 (* a released module never comes back, a module never changes its script    *)
 (* version / runtime (its constants)                                         *)
 NoResurrection ==
-    [][\A m \in Mods : /\ mods'[m].v = mods[m].v /\ mods'[m].g = mods[m].g
+    [][\A m \in Mods : /\ mods'[m].v = mods[m].v /\ mods'[m].g = mods[m].g /\ mods'[m].late = mods[m].late
                        /\ mods[m].nfree = 1 => mods'[m] = mods[m]]_vars
 
 (* packages never influence each other: the counts of a module only move    *)
@@ -259,7 +286,7 @@ Isolation ==
                               => HoldersM(m)' # HoldersM(m)
        /\ \A g \in Gens : \A f \in Fns : gens'[g].cnt[f] # gens[g].cnt[f]
               => /\ gens'[g].cnt[f] = gens[g].cnt[f] + 1
-                 /\ obs'.rc = RcTag(g)
+                 /\ obs'.rc \in {RcTag(g), RcTag(g) + LcTag(g)}
                  /\ \E v \in Versions :
                       /\ obs'.k = KSum(v)
                       /\ \/ UsesSeq(v)[1] = f /\ obs'.na = gens[g].cnt[f]
